@@ -47,7 +47,7 @@ func ParseDuration(s string) (Duration, error) { return time.ParseDuration(s) }
 // simply one that may be overtaken); outside it sleeps for real.
 func Sleep(d Duration) {
 	if s := vrt.Active; s != nil {
-		s.Point("sleep", func() bool { return true })
+		s.Point("sleep", nil)
 		return
 	}
 	time.Sleep(d)
